@@ -13,7 +13,7 @@ var verifFiles map[string][]byte
 
 func verifStubStatFiles(name string) (os.FileInfo, error) {
 	verifStatCalls = append(verifStatCalls, name)
-	if name == "/p/d" || name == "/p" || name == "/" {
+	if name == "/p/d" || name == "/p/e" || name == "/p" || name == "/" {
 		return verifFileInfo{dir: true}, nil
 	}
 	if _, ok := verifFiles[name]; ok {
